@@ -12,11 +12,11 @@ RULE = ('cases: sx.parse h:input mode (0: NUL-terminated copy, sx_parse_string; 
         '( ) space newline a 1 # x F { up to length 5 (quick) / 6 (thorough) and sampled longer ones; random strings.  Every input in both presentation modes. '
         'Non-trivial: every case; distinct = distinct lines.')
 TRUSTED_BASE = TB_COMMON + ['Model/Sx.v is hand-written from src/sx.c; tie = correspondence (exact-size heap blocks under ASan for the no-over-read clause, allocator statistics for leaks)']
-ASSUMPTIONS = ['octets below 128 (C locale character classes)', 'integers are taken modulo 2^64', 'allocation failure (the library exits) is outside the domain']
+ASSUMPTIONS = ['C locale character classes (octets >= 128 belong to no class; the harness passes them as the platform char)', 'integers are taken modulo 2^64', 'allocation failure (the library exits) is outside the domain']
 EXHAUSTIVE = {'quick': False, 'thorough': False}
 TECHNIQUE = 'Coq proof (reader inverts every rendering; accepted input is a rendering; everything else rejected; termination; numeral values) + correspondence on exact-size heap blocks under ASan with allocation balance'
 LEVEL_TEXT = 'Theorems in Properties_C20.v about Model/Sx.v for all ASCII inputs: every rendering of every tree of symbols, 64-bit unsigned integers (decimal, #x hexadecimal in any mixture of cases) and nested proper lists (incl. empty lists at any depth), with arbitrary white space, is read back as the identical tree at the position just past it; conversely whatever is accepted is such a rendering; an input that does not begin with a complete expression yields an error status; the reader terminates on every input and is a function of the n given octets only.  Model tied to the C by correspondence (NUL-terminated and length-delimited exact-size blocks under ASan, allocation balance from the sanitizer allocator statistics, all strings up to length 5/6 over a 10-character alphabet, rendered trees cut at every position).'
-LEVEL_NOTE = 'Partial for the runtime clauses: no over-read / no leak of the compiled code are observed (ASan, allocator statistics) on executed cases; the theorems cover the reader as a function. Trusted: Coq kernel; hand model of sx.c; correspondence. Octets < 128. No axioms.'
+LEVEL_NOTE = 'Partial for the runtime clauses: no over-read / no leak of the compiled code are observed (ASan, allocator statistics) on executed cases; the theorems cover the reader as a function. Trusted: Coq kernel; hand model of sx.c; correspondence. All 256 octet values. No axioms.'
 NO_SHRINK = False
 
 ALPHA = [ord(c) for c in '() \na1#xF{']
@@ -77,8 +77,8 @@ def gen(rng, tier):
             for cut in range(len(s)):
                 yield from both(s[:cut])
         yield 'sx.tok %s %d' % (hexs([ord(c) for c in s]), rng.randrange(len(s) + 1))
-    # every octet value below 128 in every role: alone, inside a symbol, inside a decimal / hexadecimal numeral, between list elements
-    for x in range(1, 128):
+    # every octet value in every role: alone, inside a symbol, inside a decimal / hexadecimal numeral, between list elements
+    for x in range(1, 256):
         for ctx in ([x], [0x61, x, 0x62], [0x31, x, 0x32], [0x23, 0x78, 0x31, x, 0x41], [0x28, 0x61, x, 0x62, 0x29], [0x28, x, 0x29], [0x23, x, 0x31], [x, 0x28, 0x29]):
             yield from both(ctx)
         yield 'sx.tok %s %d' % (hexs([0x61, x, 0x62]), x % 4)
@@ -91,7 +91,7 @@ def gen(rng, tier):
         t = [rng.choice(ALPHA) for _ in range(n)]
         yield from both(t)
     for _ in range(20000 if big else 2000):
-        t = [rng.randrange(1, 128) for _ in range(rng.randrange(0, 12))]
+        t = [rng.choice([rng.randrange(1, 128), rng.randrange(1, 256)]) for _ in range(rng.randrange(0, 12))]
         yield from both(t)
         yield 'sx.tok %s %d' % (hexs(t), rng.randrange(len(t) + 1))
 
